@@ -1,7 +1,7 @@
 SPECIFICATION Spec
 CONSTANTS
   Progs12 <- AllProgs
-  Progs3 <- AllProgs
+  Progs3 <- Progs3All
   MaxSteps = 3
   ExtraSets <- Ex4
   ExistingSets <- Old3
